@@ -528,16 +528,20 @@ func c17DamageX(f []string) (sp c17Spec, nrec int, built *c17Built, z []byte, la
 var (
 	c17TmpOnce sync.Once
 	c17TmpDir  string
-	c17TmpSeq  int
 	c17Expect  = map[string][2]string{} // (format, nrec) -> record count, digest of the intact plain file
 )
 
-// c17TmpFile writes the bytes to a fresh file of the process-wide scratch directory
+// c17TmpFile writes the bytes to a file of a fresh scratch directory (removed by the caller)
 func c17TmpFile(name string, z []byte) string {
-	c17TmpOnce.Do(func() { c17TmpDir, _ = os.MkdirTemp("", "c17") })
-	c17TmpSeq++
-	dir := filepath.Join(c17TmpDir, strconv.Itoa(c17TmpSeq))
-	os.MkdirAll(dir, 0o755)
+	c17TmpOnce.Do(func() {
+		if st, err := os.Stat("/dev/shm"); err == nil && st.IsDir() {
+			c17TmpDir = "/dev/shm"
+		}
+	})
+	dir, err := os.MkdirTemp(c17TmpDir, "c17")
+	if err != nil {
+		dir, _ = os.MkdirTemp("", "c17")
+	}
 	path := filepath.Join(dir, name)
 	os.WriteFile(path, z, 0o644)
 	return path
@@ -646,6 +650,17 @@ func c17File(f []string) (string, []Fail) {
 		return ""
 	})
 	full := c17FormatData(format, nrec)
+	// a multi-member file cut exactly between two members is a complete file of fewer members
+	boundary := 0
+	if k, is := c17KV(f[3], "cut"); is && built != nil {
+		pre := 0
+		for m := 1; m < len(built.offs); m++ {
+			pre += built.sizes[m-1]
+			if built.offs[m] == k {
+				boundary, full = m, full[:pre]
+			}
+		}
+	}
 	nrecRead, digest, res := c17Digest(path)
 	if res == "ok" && nrecRead == 0 && xn == 0 {
 		res = "empty"
@@ -660,6 +675,12 @@ func c17File(f []string) (string, []Fail) {
 		rawAccepted = res == "ok" && nrecRead > 0
 		res = "raw"
 	}
+	accepted := res == "ok" || res == "empty"
+	if class == "eof" && !bytes.HasPrefix(c17FormatData(format, nrec), decoded) {
+		// the library delivers OTHER bytes than those of the file without any error (a format without content checksum):
+		// what the format parsers make of them depends on the bytes; the model has no opinion
+		class, res = "altered", "altered"
+	}
 	caseOverride = fmt.Sprintf("file %s nrec=%d %s n=%d err=%s", f[1], nrec, f[3], n, class)
 	if built != nil && len(built.sizes) > 1 {
 		caseOverride += " ms=" + c17Sizes(built.sizes)
@@ -667,22 +688,24 @@ func c17File(f []string) (string, []Fail) {
 	var fails []Fail
 	stat("damage-class:" + class)
 	// the opener must hand the library's verdict on unchanged: same bytes, an error exactly when the library reports one
-	if (xclass == "eof") != (class == "eof" || class == "raw") || (xclass == "eof" && !bytes.Equal(xdecoded, decoded)) || (xclass != "eof" && xn > n) {
+	if (xclass == "eof") != (class == "eof" || class == "raw" || class == "altered") || (xclass == "eof" && !bytes.Equal(xdecoded, decoded)) || (xclass != "eof" && xn > n) {
 		fails = append(fails, Fail{Sig: "file." + codec + ".opener-changes-verdict", Text: fmt.Sprintf("%s: the library delivers %d bytes and ends with %s, the toolkit's opener delivers %d bytes and ends with %s", label, n, class, xn, xclass)})
 	}
 	if rawAccepted {
 		fails = append(fails, Fail{Sig: "file." + codec + ".magic-damaged-accepted-as-text", Text: label + ": the magic number is damaged, the file is no longer recognised as compressed and its bytes were accepted as a text format"})
 	}
-	if res == "ok" || res == "empty" {
+	if accepted {
 		// accepted: then the file must have delivered the complete data of ALL its members and the reader ALL the records
 		wantN, wantDigest, have := c17Expected(format, nrec)
 		switch {
+		case boundary > 0 && bytes.Equal(decoded, full):
+			stat("accepted-complete:cut-between-members")
 		case n != len(full) || nrecRead != nrec || !bytes.Equal(decoded, full):
 			sig := "file." + codec + ".accepted-damaged"
-			if class == "eof" {
+			if class == "eof" || class == "altered" {
 				sig = "file." + codec + ".codec-reports-clean-eof" // the decompression library itself hides the damage
 			}
-			if class == "eof" && sp.variant == "nocrc" && n > 0 {
+			if (class == "eof" || class == "altered") && sp.variant == "nocrc" && n > 0 {
 				// a stream format without content checksum: the library cannot know, nor can the toolkit
 				stat("undetectable-without-checksum:" + codec)
 				break
@@ -693,7 +716,7 @@ func c17File(f []string) (string, []Fail) {
 		default:
 			stat("accepted-complete:" + strings.SplitN(f[3], "=", 2)[0])
 		}
-	} else if res != "fail" && res != "raw" {
+	} else if res != "fail" && res != "raw" && res != "altered" {
 		fails = append(fails, Fail{Sig: "file.outcome", Text: res})
 	}
 	return res, fails
@@ -903,6 +926,15 @@ func c17Kseq(f []string) (string, []Fail) {
 		z, _, okd := c17ApplyDamage(built.z, f[3])
 		if !okd {
 			return "bad-op", nil
+		}
+		if k, is := c17KV(f[3], "cut"); is {
+			pre := 0
+			for m := 1; m < len(built.offs); m++ {
+				pre += built.sizes[m-1]
+				if built.offs[m] == k {
+					data = data[:pre] // cut exactly between two members: a complete file of fewer members
+				}
+			}
 		}
 		stat("kseq-layout:" + sp.layout[:1])
 		stat("kseq-member-damage:" + c17Where(built, f[3]))
